@@ -2,11 +2,12 @@
 Case format: '19 | op ; op ..'.  A future wrapped with trait_obj!(.. as Future) is polled by the driver with a counting
 Arc-based waker; inside its poll it executes the script: '0' clone the Context's waker into a pool (slot ids = creation order),
 '1' wake_by_ref the Context's waker, '2 h' clone pool[h], '3 h' wake pool[h] (by value), '4 h' wake_by_ref pool[h], '5 h' drop
-pool[h], '6' return Pending.  Ops 2..5 that are not between an in-poll op and a '6' run after the poll returned (retained wakers).
+pool[h], '6' return Pending, '7' the executor drops its own waker (only retained wakers are used afterwards).  Ops 2..5 that are not between an in-poll op and a '6' run after the poll returned (retained wakers).
 After the script every remaining pool slot is dropped in order.
 Output per op: result row [code ok new-slot] and observation row [times the caller's waker was woken; clones of the caller's
 waker currently held = Arc::strong_count - baseline].
-Monitor: wakes == number of successful wake ops; zero clones held after all foreign wakers are gone; the caller's Arc count is
+The caller's waker counts its references by hand (raw vtable), so a wake or release on a reference that is no longer alive is seen.
+Monitor: no wake and no release while no reference is alive; wakes == number of successful wake ops; zero clones held after all foreign wakers are gone; the caller's Arc count is
 back to its baseline; allocator (no double free, no leak).
 '119 <threads> | history': the history runs as above; then every thread receives a clone of each retained waker and replays, concurrently with the others, the
 clone / wake / wake_by_ref / drop operations of the history on its own copies and releases what it still holds; output: the final observation row only, compared
@@ -60,6 +61,19 @@ def random_script(rng, maxlen):
         else:
             h = rng.choice(live)
             c = rng.choice([2, 2, 3, 4, 4, 5])
+            ops.append([c, h])
+            if c == 2:
+                live.append(n); n += 1
+            elif c in (3, 5):
+                live.remove(h)
+    if rng.chance(1, 2):
+        # the executor lets go of its own waker ('7'): afterwards only retained wakers are used — their clones hold the last references
+        ops.append([6]); ops.append([7])
+        for _ in range(rng.range(0, 8)):
+            if not live:
+                break
+            h = rng.choice(live)
+            c = rng.choice([2, 3, 3, 4, 5])
             ops.append([c, h])
             if c == 2:
                 live.append(n); n += 1
